@@ -142,6 +142,16 @@ CLAIMED = {
              "(lists unrolled: <= 3 levels x <= 2 controllers, max_iter = 2).",
         note="Assumed: read_from_net / write_to_net contracts; nothing_to_do False; well-formed band (lower <= upper). Not decided: "
              "the power flow itself, other controller classes, hunting detection; loops over controller lists only bounded."),
+    "C16": dict(
+        text="Proof for the generic in-service controllable element (real _build_pp_pq_element / add_p_constraints / add_q_constraints "
+             "for sgen, load, storage; _build_pp_gen with _enforce_controllable_vm_pu_p_mw; write_pq_results_to_element): the box handed "
+             "to the solver is exactly the declared box in the element's own sign convention (PMIN <= PG <= PMAX <=> min_p - delta <= "
+             "sign*PG <= max_p + delta, same for Q, for every point), setpoints PG/QG = sign * p/q * scaling, the result written back "
+             "is sign * PG of the element's own row; gens: PG, VG, Q box, non-controllable gens fixed at p_mw and vm_pu; only the "
+             "element's block of ppc['gen'] is written.",
+        note="Assumed: A-SOLVE (the interior point solver returns a point of the box it is given), A-LOOKUP (block layout of "
+             "ppc['gen']). Not decided: solver, branch loading / dcline / plain bus voltage constraints, DC OPF, power flow replay of "
+             "the dispatch."),
 }
 
 NOT_APPLICABLE = {
